@@ -47,7 +47,9 @@ def safe(fn, *a):
 
 LEVEL = 'exploration'
 RULE = ("seeded random programs as data (vf/gen_graph.py:gen_program_c02) of "
-        "kinds plain / mc (multichannel expansion, nested lists) / wf (width-"
+        "kinds plain / wrap (graph functions that recover from a SynthDef.wrap "
+        "rejected for a bad rate annotation, then wrap valid helpers) / mc "
+        "(multichannel expansion, nested lists) / wf (width-"
         "first units, FFT chains) / big (150-420 nodes, up to 300 distinct "
         "constants) / variants / invalid:<9 defects>, each with a random "
         "definition name of 1..255 printable ASCII characters and 0-8 controls "
@@ -73,18 +75,22 @@ MIN_COUNTERS = {
               'invalid_rejected': 300, 'invalid_ctor_rejected': 1000,
               'definitions_parsed_big': 20,
               'definitions_parsed_mc': 200, 'definitions_parsed_wf': 200,
-              'variant_blocks_checked': 50, 'names_longer_than_200': 20},
+              'variant_blocks_checked': 50, 'names_longer_than_200': 20,
+              'recovered_failing_wraps': 1000,
+              'failed_wrap_twins_compared': 800},
     'thorough': {'definitions_parsed': 50000, 'units_checked': 1000000,
                  'reader_roundtrips': 100000,
                  'width_first_pairs_checked': 100000, 'invalid_rejected': 10000,
                  'invalid_ctor_rejected': 20000,
                  'definitions_parsed_big': 500, 'definitions_parsed_mc': 5000,
                  'definitions_parsed_wf': 5000, 'variant_blocks_checked': 2000,
-                 'names_longer_than_200': 500},
+                 'names_longer_than_200': 500,
+                 'recovered_failing_wraps': 20000,
+                 'failed_wrap_twins_compared': 15000},
 }
 
 KINDS = {'plain': 7000, 'mc': 7000, 'wf': 7000, 'variants': 4500, 'big': 720,
-         'invalid': 4500, 'invalid-ctor': 9000}
+         'invalid': 4500, 'invalid-ctor': 9000, 'wrap': 5000}
 # quick tier sizes (cases); also capped in seconds
 
 
@@ -150,11 +156,17 @@ def structure(d, prog, gg, acc):
     if d.name != prog['name']:
         out.append(('C02/name-differs', f'{d.name!r} != {prog["name"]!r}'))
     names = [nm for nm, _ in d.param_names]
+    # controls of the function itself plus those of every successful
+    # SynthDef.wrap, in creation order (a rejected helper creates none)
+    declared = list(prog['params']) + list(prog.get('wrap_params') or [])
     if len(set(names)) != len(names):
         out.append(('C02/control-name-duplicated', repr(names)))
-    if names != [p['name'] for p in prog['params']]:
+    slots = [ix for _, ix in d.param_names]
+    if len(set(slots)) != len(slots):
+        out.append(('C02/control-names-share-slot', repr(d.param_names)))
+    if names != [p['name'] for p in declared]:
         out.append(('C02/control-names-differ',
-                    f'{names} != {[p["name"] for p in prog["params"]]}'))
+                    f'{names} != {[p["name"] for p in declared]}'))
     # control units partition the slots
     cover = [None] * P
     for u in d.units:
@@ -173,8 +185,9 @@ def structure(d, prog, gg, acc):
     # declared controls: contiguous ranges, defaults, unit class and rate
     index = dict(d.param_names)
     used = [0] * P
-    lagged = any(p.get('lag') for p in prog['params'])
-    for prm in prog['params']:
+    lagged_groups = {p.get('group', 0) for p in declared if p.get('lag')}
+    for prm in declared:
+        lagged = prm.get('group', 0) in lagged_groups
         ix = index.get(prm['name'])
         if ix is None:
             continue
@@ -584,6 +597,22 @@ def run_shard(spec, acc):
             d = scgf.parse(raw)
         except scgf.ScgfError as e:
             problems.append((f'C02/not-scgf/{err_code(str(e))}', str(e)))
+            if kind == 'wrap':
+                acc.count('recovered_failing_wraps', sum(
+                    nd['k'] == 'wrapfail' for nd in prog['nodes']))
+                for how in ('new_from', 'read_stream'):   # the library's reader
+                    try:
+                        if how == 'new_from':
+                            SynthDesc.new_from(sd)
+                        else:
+                            SynthDesc._read_stream(io.BytesIO(raw))
+                        acc.count('reader_accepted_unparseable_bytes')
+                    except Exception as e2:
+                        sites = tb_sites(e2)
+                        site = ':'.join(sites[-1]) if sites else '?'
+                        problems.append((
+                            f'C02/reader-raises/{type(e2).__name__}/{site}',
+                            safe(lambda: f'{how}: {e2!r}'[:300])))
         if d is not None:
             acc.count('definitions_parsed')
             acc.count('definitions_parsed_' + kind.split(':')[0])
@@ -591,6 +620,24 @@ def run_shard(spec, acc):
             acc.maxi('max_constants_in_a_definition', len(d.constants))
             problems += structure(d, prog, gg, acc)
             problems += order(d, prog, gg, acc)
+            if kind == 'wrap':
+                # a rejected helper leaves nothing behind: same bytes as the
+                # program that goes straight to the fallback
+                acc.count('recovered_failing_wraps', sum(
+                    nd['k'] == 'wrapfail' for nd in prog['nodes']))
+                try:
+                    twin = bytes(gg.build(
+                        gg.without_failed_wraps(prog)).as_bytes())
+                    acc.count('failed_wrap_twins_compared')
+                    if twin != raw:
+                        k0 = next((k for k, (x, y) in enumerate(zip(raw, twin))
+                                   if x != y), min(len(raw), len(twin)))
+                        problems.append((
+                            'C02/failed-wrap-leaves-residue/bytes-differ',
+                            f'{len(raw)} bytes with the failed wrap, '
+                            f'{len(twin)} without; first difference at {k0}'))
+                except Exception:
+                    acc.count('failed_wrap_twin_did_not_build')
             if prog.get('variants'):
                 note = prog.get('variants_note')
                 acc.count('variant_programs_' + str(note))
@@ -644,7 +691,8 @@ def run_shard(spec, acc):
             continue
         feats = prog.get('features', ())
         nontriv = d is not None and len(d.units) >= 8 and (
-            any(f.startswith(('mc-', 'wf-', 'multi', 'list', 'sink-list'))
+            any(f.startswith(('mc-', 'wf-', 'multi', 'list', 'sink-list',
+                              'recovered-failing-wrap'))
                 for f in feats)
             or any(isinstance(p['default'], list) for p in prog['params'])
             or bool(prog.get('variants')))
